@@ -106,7 +106,7 @@ func runC19(r *ev.Run) {
 		})
 	}
 	// random larger states
-	nStates := pick(r, 40, 1200)
+	nStates := pick(r, 120, 1200)
 	for i := 0; i < nStates; i++ {
 		caseID := fmt.Sprintf("rand-%d-%d", r.Batch, i)
 		cg := g.Fork()
@@ -269,7 +269,7 @@ func runC19Laws(r *ev.Run, g *rng.R) {
 	r.Eval(int64(np))
 	r.Count("law_pairs", int64(np))
 	// transitivity + agreement on random longer / unequal-length strings
-	nt := pick(r, 200000, 10000000)
+	nt := pick(r, 600000, 10000000)
 	lg := g.Fork()
 	for i := 0; i < nt; i++ {
 		x := lg.Bytes(lg.Intn(5))
